@@ -322,6 +322,11 @@ def add_cds_feature(
     feature = SeqFeature(location, type=GeneIntervalFeatures.CDS.value, strand=strand.value)
     feature.qualifiers = transcript_qualifiers
 
+    # the reading frame of the 5'-most CDS block is what GenBank calls /codon_start (1-based); the parser reads it back
+    start_frame = next(transcript.cds._frame_iter())
+    if start_frame.value >= 0:
+        feature.qualifiers[KnownQualifiers.CODON_START.value] = [start_frame.value + 1]
+
     if update_translations:
         # if the sequence has N's, we cannot translate
         try:
